@@ -188,6 +188,10 @@ class VM:
         """Run compiled bytecode and return result."""
         if self.start_time is None:  # nested eval/Function inherit the outer start
             self.start_time = time.monotonic()
+        elif self.time_limit and time.monotonic() - self.start_time > self.time_limit:
+            # A nested run may be too short to reach its own periodic check
+            # (a tree of eval() calls, each a few instructions long)
+            raise TimeLimitError("Execution timeout")
 
         # Create initial call frame
         frame = CallFrame(
